@@ -58,3 +58,60 @@ def run_property(pid: str, tier: str, seed: int, cfgs: Sequence[catalog.Cfg],
     if require:
         rep.require_positive(*require)
     return rep
+
+
+def replay(pid: str, doc: Dict[str, Any]) -> int:
+    """Re-run one recorded counterexample: plain eager loop (printed), then the property's monitors on
+    exactly that path. Returns 1 if the violation reproduces."""
+    import jax
+    import jax.numpy as jnp
+    import numpy as np
+
+    from mc.checks import horizon
+    from mc.engine import Explorer, replay_path, to_np
+
+    rdoc = doc.get("replay", doc)
+    name = rdoc["model"].split("@")[0]
+    cfg = catalog.BY_NAME[name]
+    env = eval(rdoc["ctor"], catalog.namespace())  # noqa: S307
+    mod = importlib.import_module(f"mc.checks.{pid.lower()}")
+    if rdoc.get("kind") == "static":
+        plan = mod.plan(cfg, env, "quick")
+        ex = Explorer(env, rdoc["model"], pid, keys=[0], monitors=plan["monitors"], max_depth=0, ctor=rdoc["ctor"])
+        if plan.get("pre"):
+            plan["pre"](ex)
+        res = ex.run()
+        hit = [v for v in res["violations"] if v.signature == rdoc.get("signature")]
+        print(f"replay(static): {len(hit)} matching violation(s)")
+        return 1 if hit else 0
+    injected = None
+    if "injected_root" in rdoc:
+        injected = horizon.rebuild_root(env, rdoc["injected_root"])
+    path = replay_path(env, rdoc, injected)
+    for t, (s, ts) in enumerate(path):
+        print(f"  t={t} step_type={int(ts.step_type)} reward={np.asarray(ts.reward).tolist()} "
+              f"discount={np.asarray(ts.discount).tolist()}" + (f" action={rdoc['actions'][t-1]}" if t else ""))
+    plan = mod.plan(cfg, env, "quick")
+    s0, ts0 = path[0]
+    roots = jax.tree_util.tree_map(lambda x: np.asarray(x)[None], to_np(jax.tree_util.tree_map(jnp.asarray, (s0, ts0))))
+    acts = rdoc["action_indices"]
+
+    def enabled_fn(par, actions):
+        out = np.zeros((len(par), len(actions)), bool)
+        for j, nid in enumerate(par.ids):
+            d = ex.depth[int(nid)]
+            if d < len(acts):
+                out[j, acts[d]] = True
+        return out
+
+    kw = {k: v for k, v in plan.items() if k not in ("monitors", "pre")}
+    kw.pop("enabled_fn", None)
+    ex = Explorer(env, rdoc["model"], pid, roots=roots, root_desc=[rdoc.get("injected_root", {"reset_key_seed": rdoc.get("reset_key_seed")})],
+                  monitors=plan["monitors"], max_depth=len(acts), enabled_fn=enabled_fn, ctor=rdoc["ctor"],
+                  eager_max_paths=0, **{k: v for k, v in kw.items() if k in ("post_terminal",)})
+    ex.injected_roots = "injected_root" in rdoc
+    res = ex.run()
+    sigs = {v.signature for v in res["violations"]}
+    want = rdoc.get("signature")
+    print(f"replay: signatures reproduced on this path: {sorted(sigs)}")
+    return 1 if (want in sigs or (want is None and sigs)) else 0
